@@ -100,6 +100,10 @@ CLAIMED = {
             "Generated-input search; every table entry that exists after loading the configuration must render identically after analysing the program (arguments, return type incl. variants, flags, block parameters, overloads). Exploration.",
             "The observable is the guard-on build's table (add-only hook); entries added by inference and the display cache are ignored.",
             "DESIGN.md §4 C12"),
+    "C22": ("property-based testing (Hypothesis: generated classes/modules with methods in visibility sections and five definition forms) against a Ruby model of definition rows, c/i tags and visibility; --define and --hover queried on every call row",
+            "Generated-input search; -i hint on each def row with the model's tag, --define record naming the def row, --hover line naming Class.method for each call row. Exploration.",
+            "Visibility inside `class << self` bodies is not varied (only bare sections of the class body).",
+            "DESIGN.md §4 C22"),
 }
 
 PENDING_REASON = "check not built yet in this round (planned in DESIGN.md §3.11); no claim is made"
